@@ -26,6 +26,10 @@ where
 {
     fn parse(s: &str) -> Self;
     fn small(i: i64) -> Self;
+    /// `Tensor::iter_owned` needs `T: Default`, which the exact types of `exact.rs` do not have
+    fn owned_iter(_t: Tensor<Self, 2>) -> Option<Vec<Self>> {
+        None
+    }
     /// values hidden behind masks/ranges: large, distinct, non-zero
     fn junk(k: usize) -> Self {
         Self::small(1_000_003 + 7919 * k as i64)
@@ -57,6 +61,9 @@ impl Elem for Rat {
 /// Integer element type: everything is exact (only unimodular matrices are asked for their
 /// inverse, because `T::one() / det` is an integer division).
 impl Elem for i64 {
+    fn owned_iter(t: Tensor<i64, 2>) -> Option<Vec<i64>> {
+        Some(t.iter_owned().collect())
+    }
     fn parse(s: &str) -> i64 {
         s.parse().expect("i64 literal")
     }
@@ -446,6 +453,63 @@ where
     }
 }
 
+/// Consumers of a tensor inverse other than reading it by index: each sees the result through a
+/// different part of the library (raw buffer order, strides, iterators, operators).
+const CONSUMERS: [&str; 11] = [
+    "into_matrix", "matrix_from", "elementwise", "map_with_index", "add_plain", "sub_plain",
+    "reshape_owned", "display", "iter_owned", "iter_ref", "eq_rebuilt",
+];
+
+/// `tcons use=<consumer>`: the tensor inverse obtained through `via`, passed through a consumer
+fn tensor_consumer<T: Elem>(l: &Logical<T>, via: &str, consumer: &str) -> String
+where
+    for<'a> &'a T: NumericRef<T>,
+{
+    let Some(inv) = tensor_inv::<T>(via, l) else { return "none".to_string() };
+    let n = l.rows;
+    let shape = [(l.names[0], n), (l.names[1], n)];
+    let vals = |v: Vec<T>| format!("some({})", show_vals(&v));
+    match consumer {
+        "into_matrix" => {
+            let m = inv.into_matrix();
+            let data: Vec<T> = m.row_major_iter().collect();
+            format!("some({}x{};{})", m.rows(), m.columns(), show_vals(&data))
+        }
+        "matrix_from" => {
+            let m: Matrix<T> = <Matrix<T> as From<Tensor<T, 2>>>::from(inv);
+            let data: Vec<T> = m.row_major_iter().collect();
+            format!("some({}x{};{})", m.rows(), m.columns(), show_vals(&data))
+        }
+        "elementwise" => vals(inv.elementwise(&l.tensor(), |x, y| x * y).iter().collect()),
+        "map_with_index" => vals(
+            inv.map_with_index(|[i, j], x| x * T::from_usize(i * n + j + 1).expect("from_usize")).iter().collect(),
+        ),
+        "add_plain" => vals((&inv + &l.tensor()).iter().collect()),
+        "sub_plain" => vals((&inv - &l.tensor()).iter().collect()),
+        "reshape_owned" => vals(inv.reshape_owned([("flat", n * n)]).iter().collect()),
+        "iter_owned" => match T::owned_iter(inv) {
+            Some(v) => vals(v),
+            None => "unsupported".to_string(), // needs `T: Default`; only generated for i64
+        },
+        "iter_ref" => vals(inv.iter_reference().cloned().collect()),
+        "display" => {
+            // against the Display of a tensor built afresh from the Matrix entry point's result
+            let reference = linear_algebra::inverse::<T>(&l.matrix()).expect("matrix inverse present");
+            let rebuilt = Tensor::from(shape, reference.row_major_iter().collect());
+            if format!("{}", inv) == format!("{}", rebuilt) { "some(same)".to_string() } else { format!("some(differs:{})", format!("{}", inv).replace(char::is_whitespace, "_")) }
+        }
+        "eq_rebuilt" => {
+            // `==`, and the raw conversion, against a tensor built afresh from the Matrix result
+            let reference = linear_algebra::inverse::<T>(&l.matrix()).expect("matrix inverse present");
+            let rebuilt = Tensor::from(shape, reference.row_major_iter().collect());
+            let eq = inv == rebuilt;
+            let same_matrix = inv.into_matrix() == reference;
+            if eq && same_matrix { "some(same)".to_string() } else { format!("some(eq={},into_matrix_eq={})", eq, same_matrix) }
+        }
+        other => format!("bad-op {}", other),
+    }
+}
+
 fn answer<T: Elem>(l: &Logical<T>, op: &str, via: &str) -> String
 where
     for<'a> &'a T: NumericRef<T>,
@@ -706,6 +770,16 @@ fn answer_bits(l: &Logical<f64>, op: &str, via: &str) -> String {
     }
 }
 
+fn consumer_answer<T: Elem>(l: &Logical<T>, via: &str, consumer: &str) -> String
+where
+    for<'a> &'a T: NumericRef<T>,
+{
+    match catch(|| tensor_consumer::<T>(l, via, consumer)) {
+        Ok(s) => s,
+        Err(k) => panic_str(k),
+    }
+}
+
 // ---------------------------------------------------------------------------------------------
 // runner
 // ---------------------------------------------------------------------------------------------
@@ -766,6 +840,9 @@ impl Runner {
         let via = opt_arg("via", toks).unwrap_or("flat/fn");
         match &self.case {
             Case::None => "no-case".into(),
+            Case::Fp(l) if toks[0] == "tcons" => consumer_answer::<Fp>(l, via, opt_arg("use", toks).unwrap_or("")),
+            Case::Rat(l) if toks[0] == "tcons" => consumer_answer::<Rat>(l, via, opt_arg("use", toks).unwrap_or("")),
+            Case::I64(l) if toks[0] == "tcons" => consumer_answer::<i64>(l, via, opt_arg("use", toks).unwrap_or("")),
             Case::Fp(l) => answer::<Fp>(l, toks[0], via),
             Case::Rat(l) => answer::<Rat>(l, toks[0], via),
             Case::I64(l) => answer::<i64>(l, toks[0], via),
@@ -1289,6 +1366,44 @@ fn special_float_cases(e: &mut Emit, thorough: bool) {
     }
 }
 
+fn consumer_cases(e: &mut Emit, max_n: usize) {
+    for n in 1..=max_n {
+        for round in 0..6 {
+            // non-symmetric with a non-symmetric inverse (so a transposed buffer is visible)
+            let (ty, ints): (&str, Vec<i128>) = match round % 3 {
+                0 => ("rat", dominant_int(e.g, n)),
+                1 => ("fp", dominant_int(e.g, n)),
+                _ => ("i64", unimodular(e.g, n)),
+            };
+            let (a, b) = e.names();
+            let entries: Vec<String> = ints.iter().map(|x| x.to_string()).collect();
+            e.g.op(format!("@ {} {}:{},{}:{} {}", ty, a, n, b, n, entries.join(",")));
+            e.g.count(&format!("type.{}", ty));
+            e.g.count(&format!("shape.{}x{}", n, n));
+            e.g.count("kind.tensor_inverse_consumers");
+            for consumer in CONSUMERS {
+                if consumer == "iter_owned" && ty != "i64" {
+                    continue;
+                }
+                let via = e.tensor_via();
+                e.g.count(&format!("consumer.{}", consumer));
+                e.g.count(&format!("via.t.{}", via));
+                e.g.op(format!("tcons use={} via={}", consumer, via));
+            }
+        }
+    }
+    // a singular input: every consumer question is `none`
+    let ints = low_rank_int(e.g, 3, 2, 3);
+    e.custom_case("rat", 3, &ints, "", "tensor_inverse_consumers", &[], 0);
+    for consumer in CONSUMERS {
+        if consumer == "iter_owned" {
+            continue;
+        }
+        let via = e.tensor_via();
+        e.g.op(format!("tcons use={} via={}", consumer, via));
+    }
+}
+
 /// adversarial dimension names: the determinant/inverse are positional whatever the names say,
 /// and the inverse carries the input's names in the input's order
 fn name_cases(e: &mut Emit) {
@@ -1479,6 +1594,10 @@ pub fn gen(g: &mut Gen) {
     //     against the documented operation order evaluated in the harness, bit for bit ---
     degenerate_cases(&mut e, max_n);
     special_float_cases(&mut e, thorough);
+    // --- the tensor inverse seen through the library's other consumers (raw conversion to a
+    //     matrix, elementwise operations, operators with a plain tensor, reshape, Display, owned
+    //     iteration …): each must show what the Matrix entry point / the model's buffer shows ---
+    consumer_cases(&mut e, max_n.min(5));
     // --- adversarial dimension names on the tensor entry points ---
     name_cases(&mut e);
 
